@@ -119,8 +119,10 @@ def translate(pid, result):
     tr = os.path.join(VERIF, "translator", "extract.py")
     if not os.path.exists(tr):
         return
-    rc, out, dt = run([sys.executable, tr], cwd=VERIF,
-                      env={"VERIF_REPO": REPO, "VERIF_GENERATED_OUT": os.path.join(LEAN, "TeraModel", "Generated")}, timeout=120)
+    tr_env = {"VERIF_REPO": REPO, "VERIF_GENERATED_OUT": os.path.join(LEAN, "TeraModel", "Generated")}
+    rc, out, dt = run([sys.executable, tr], cwd=VERIF, env=tr_env, timeout=600)
+    if "[timeout]" in out:      # a stalled machine, not the source: the extractors take a second; try once more
+        rc, out, dt = run([sys.executable, tr], cwd=VERIF, env=tr_env, timeout=1200)
     result["translator_s"] = round(dt, 2)
     if rc != 0:
         # an extractor failed: this property is affected only if it imports one of that table's outputs
